@@ -101,6 +101,23 @@ Theorem C12_bounds_strsort_variant_refuted :
 Proof. exact bounds_strsort_refuted. Qed.
 Print Assumptions C12_bounds_strsort_variant_refuted.
 
+(* ---- T22: the write front end -- how the index list is converted (exactly, to unsigned 64-bit), that an empty call is
+   refused, that indices reach the file placement in the caller's order and are paired with their values by position,
+   that an existing index is refused (create_group; ValueError -> IOError) and ends the call -- is, statement for
+   statement, the code Model/MdStore.write_call was written from: Gen/MdFrontGen.v is regenerated on every run and
+   exists only if every statement is unchanged *)
+From DRF Require Import Gen.MdFrontGen Proofs.MdFrontGenProofs.
+Theorem C12_write_front_end_is_as_modelled :
+  gen_md_index_conversion = ExactUint64 /\
+  gen_md_empty_call_refused = true /\
+  gen_md_indices_in_call_order = true /\
+  gen_md_values_paired_by_position = true /\
+  gen_md_existing_index_refused = true /\
+  gen_md_stops_at_first_refusal = true /\
+  gen_md_none_is_empty_string = true.
+Proof. exact md_front_end_as_modelled. Qed.
+Print Assumptions C12_write_front_end_is_as_modelled.
+
 (* ---- T17: the sources this property rests on keep no state outside the objects the model has (no static locals
    or mutable globals in C, no class-level / module-level containers, `global` rebinding or cache decorators in
    Python): the list of such sites, regenerated from the sources on every run, is empty *)
